@@ -10,7 +10,9 @@ import (
 	"hzcheck/esp"
 )
 
-func init() { register("C07", c07Writers, c07Order, c07FS, c07Clean, c07Root, c07Own) }
+func init() {
+	register("C07", c07Writers, c07Order, c07FS, c07Clean, c07Root, c07Own, c07Found, c03Cap, c07LazyBuf)
+}
 
 // C07.writers — URI.path only ever holds normaliser output.
 func c07Writers(e *Env) {
@@ -166,7 +168,7 @@ func c07Order(e *Env) {
 		}
 		if rs, ok := n.(*ast.ReturnStmt); ok {
 			nRet++
-			r.Check(lastCut.IsValid() && rs.Pos() > lastCut, rule, fmt.Sprintf("%s:return#%d:after-resolution", fname, nRet), w.Pos(rs.Pos()), "every return of the normaliser lies behind all segment-resolution steps", "`"+nodeString(rs)+"` returns before the last dot-segment search: on that path `/./`, `/../` or a trailing `/..` (possibly produced by percent-decoding) stay in the path")
+			r.Check(lastCut.IsValid() && (rs.Pos() > lastCut || (rs.Pos() <= lastCut && lastCut < rs.End())), rule, fmt.Sprintf("%s:return#%d:after-resolution", fname, nRet), w.Pos(rs.Pos()), "every return of the normaliser lies behind all segment-resolution steps", "`"+nodeString(rs)+"` returns before the last dot-segment search: on that path `/./`, `/../` or a trailing `/..` (possibly produced by percent-decoding) stay in the path")
 		}
 		return true
 	})
@@ -329,7 +331,27 @@ func c07FS(e *Env) {
 					}
 				}
 				// if h.pathRewrite != nil { if n := bytes.Index(path, "/../"); n >= 0 { … return } }
-				if be, ok := unparen(is.Cond).(*ast.BinaryExpr); ok && be.Op == token.NEQ && usedVar(info, be.X) == rewrite {
+				cnd := unparen(is.Cond)
+				// a bool local defined once as `h.pathRewrite != nil` stands for that test
+				if id, isID := cnd.(*ast.Ident); isID {
+					if bv, _ := info.ObjectOf(id).(*types.Var); bv != nil && !bv.IsField() {
+						var defs []ast.Expr
+						ast.Inspect(hr.Decl.Body, func(m ast.Node) bool {
+							if as, ok := m.(*ast.AssignStmt); ok && len(as.Lhs) == len(as.Rhs) {
+								for i, l := range as.Lhs {
+									if usedVar(info, l) == bv {
+										defs = append(defs, as.Rhs[i])
+									}
+								}
+							}
+							return true
+						})
+						if len(defs) == 1 {
+							cnd = unparen(defs[0])
+						}
+					}
+				}
+				if be, ok := cnd.(*ast.BinaryExpr); ok && be.Op == token.NEQ && usedVar(info, be.X) == rewrite {
 					for _, s2 := range is.Body.List {
 						if is2, ok := s2.(*ast.IfStmt); ok && terminates(is2.Body) {
 							found := false
